@@ -69,15 +69,27 @@ def all_partitions(h, w):
             yield bl
 
 
+class DrawBudgetExceeded(Exception):
+    """a library routine that walks at random until a condition holds did not get there within the allotted draws"""
+
+
 class ScriptedRandom:
     """stands in for the random source of segmentation.py: scripted randint/choice, then a seeded
     generator (both the global-`random` and the `srandom` spelling are served)"""
 
-    def __init__(self, seed, script=None):
+    def __init__(self, seed, script=None, budget=None):
         self.rnd = random.Random(seed)
         self.script = list(script or [])
+        self.budget = budget        # number of draws after which DrawBudgetExceeded is raised (None: unlimited)
+
+    def _draw(self):
+        if self.budget is not None:
+            self.budget -= 1
+            if self.budget < 0:
+                raise DrawBudgetExceeded()
 
     def randint(self, a, b):
+        self._draw()
         if self.script:
             v = self.script.pop(0)
             if a <= v <= b:
@@ -88,9 +100,11 @@ class ScriptedRandom:
         return seq[self.randint(0, len(seq) - 1)]
 
     def shuffle(self, seq):
+        self._draw()
         self.rnd.shuffle(seq)
 
     def random(self):
+        self._draw()
         return self.rnd.random()
 
 
@@ -168,7 +182,9 @@ def run_c18(rep, tier, seed):
             feasible = [p for p in parts if bounds_ok(cfg, p) is None]
             # initial()
             if feasible:
-                saved = _patch_random(seg, ScriptedRandom(seed))
+                # initial() walks at random until the bounds are met: C18 does not promise that it gets there, so the walk is
+                # given a budget of draws and a walk that uses it up is counted, not judged (and cannot hang the check)
+                saved = _patch_random(seg, ScriptedRandom(seed, budget=20000))
                 try:
                     init = b.initial()
                     e = partition_ok(h, w, init) or bounds_ok(cfg, init)
@@ -178,6 +194,8 @@ def run_c18(rep, tier, seed):
                     e = partition_ok(h, w, b2.initial())
                     if e:
                         viol("initial-invalid-unmet", e, dict(board=[h, w], cfg=cfg["args"]))
+                except DrawBudgetExceeded:
+                    rep.coverage["initial_walks_over_20000_draws"] = rep.coverage.get("initial_walks_over_20000_draws", 0) + 1
                 except Exception as ex:
                     if isinstance(ex, (ValueError, IndexError)) and _no_candidates_left(b, seg, seed):
                         # the random walk inside initial() ran into a state from which no update is proposed and chose from the
